@@ -15,6 +15,7 @@ use std::ops::{Deref, DerefMut};
 use serde::{Serialize, Serializer};
 
 thread_local! {
+    static SEAM: Cell<Option<fn()>> = const { Cell::new(None) };
     static STREAM: Cell<u64> = const { Cell::new(0x9e37_79b9_7f4a_7c15) };
     static MAPS: Cell<u64> = const { Cell::new(0) };
     static COLLAPSE: Cell<bool> = const { Cell::new(false) };
@@ -26,6 +27,20 @@ fn splitmix(state: &mut u64) -> u64 {
     z = (z ^ (z >> 30)).wrapping_mul(0xbf58_476d_1ce4_e5b9);
     z = (z ^ (z >> 27)).wrapping_mul(0x94d0_49bb_1331_11eb);
     z ^ (z >> 31)
+}
+
+/// Installs (or removes) a call-back the solver invokes on the calling thread every time it
+/// starts to evaluate an expression node: a scheduling point inside the engine for a simulator
+/// that owns the thread schedule.
+pub fn set_engine_seam(hook: Option<fn()>) {
+    SEAM.with(|s| s.set(hook));
+}
+
+#[inline]
+pub(crate) fn engine_seam() {
+    if let Some(hook) = SEAM.with(|s| s.get()) {
+        hook();
+    }
 }
 
 /// Seeds the calling thread's hash key stream.
